@@ -333,6 +333,7 @@ class Run:
         self.shared_names = {}     # id(symbolic image) -> global name
         self.heap_writes = []      # (target SV, what) for every dict/list mutation
         self.native_overlay = {}   # id(real dict) -> {key: SV} writes to live dicts (never applied to the real object)
+        self.class_overlay = {}    # (class, attribute) -> SV
 
     def check(self, formula, label):
         """Record an obligation that must hold at this program point (loop/fold invariants)."""
@@ -560,6 +561,8 @@ class Run:
                     return VStr(str, obj.__qualname__)
                 if name == "__mro__":
                     return lift(obj.__mro__)
+                if (obj, name) in self.class_overlay:
+                    return self.class_overlay[(obj, name)]
                 hit = self.find_attr(obj, name)
                 if hit is None:
                     # metaclass attributes
@@ -620,8 +623,11 @@ class Run:
             self.heap_writes.append((v, f"attr:{name}"))
             return
         if isinstance(v, VNative) and isinstance(v.obj, type):
+            # a class attribute is shared by every instance (and thread): recorded, kept in an overlay
             self.ghost.setdefault("writes", []).append((v, name))
-            raise Unsupported(f"class attribute write {v.obj.__name__}.{name}")
+            self.heap_writes.append((v, f"class-attr:{name}"))
+            self.class_overlay[(v.obj, name)] = val
+            return
         raise Unsupported(f"setattr on {v!r}")
 
     # ------------------------------------------------------------ calls
